@@ -102,6 +102,53 @@ def zero_case(rng, tier):
     return case
 
 
+def exhaustive_small_scope(run, drv):
+    """Scaled mode (B = 64), reference metafiles: EVERY tree of up to 3 (v1) / 2 (v2, hybrid)
+    files named a, b, c with sizes from {0,1,63,64,65,128,129}, piece lengths 64 and 128,
+    intact and with EVERY single damage from {remove f, truncate f to 0 / half / len-1,
+    flip first / last byte of f} (for v2/hybrid only damages whose absent range is not all
+    zero). A finite space, enumerated completely."""
+    import itertools
+    sizes = [0, 1, 63, 64, 65, 128, 129]
+    names = ["a", "b", "c"]
+    count = 0
+    with rc.scaled(64):
+        exp = {}
+        for version in (1, 2, 3):
+            for k in range(1, 4 if version == 1 else 3):
+                for combo in itertools.product(sizes, repeat=k):
+                    if sum(combo) == 0:
+                        continue
+                    for pl in (64, 128):
+                        files = [(names[i], f"r{i + 1}.{combo[i]}") for i in range(k)]
+                        damages = [[]]
+                        for i in range(k):
+                            n = combo[i]
+                            if n == 0:
+                                continue
+                            damages += [[["remove", names[i]]], [["trunc", names[i], 0]],
+                                        [["flip", names[i], 0]], [["flip", names[i], n - 1]]]
+                            if n > 1:
+                                damages += [[["trunc", names[i], n // 2]], [["trunc", names[i], n - 1]]]
+                        for dmg in damages:
+                            case = {"files": files, "pl": pl, "version": version, "single": False,
+                                    "source": "ref", "creator": "v1", "via_parent": False,
+                                    "damage": dmg, "scaled": 64, "exhaustive": True}
+                            res = run_case(run, drv, case, exp)
+                            if res is None:
+                                continue
+                            judge(run, case, res)
+                            count += 1
+                            run.case(["small-scope", version, pl, list(combo), dmg], bool(dmg),
+                                     sample=None, classes=["small-scope", f"v{version}"])
+                settle(run, drv, exp)
+                exp = {}
+    run.extra["exhaustive_small_scope"] = {
+        "cases": count, "exhaustive": True,
+        "space": "B=64; files a,b,c; sizes {0,1,63,64,65,128,129}; <=3 files (v1) / <=2 (v2, hybrid); "
+                 "pl in {64,128}; intact + every single remove/truncate(0,half,len-1)/flip(first,last)"}
+
+
 def nontrivial(case):
     return len({op[1] for op in case["damage"]}) >= 2
 
@@ -145,6 +192,7 @@ def run(tier, seed, replay=None):
                  classes=[f"v{case['version']}", case["source"], f"damages={len(case['damage'])}"])
     settle(run, drv, exp)
     if tier == "thorough" and not replay:
+        exhaustive_small_scope(run, drv)
         with rc.scaled(64):
             exp2 = {}
             for i in range(3000):
